@@ -1127,6 +1127,11 @@ CONSTRUCTED = [
     # negative numbers in the token / string front ends
     *[{"jobs": _JNEG, "filter": f, "rewrites": [[6, k]], "slices": [], "groupings": []}
       for f in ({"a": -1}, {"doc.a": -2.5}, {"b": -0.5, "doc.a": -2}, {"a": -1, "b": 1}) for k in range(4)],
+    # the same plain equality condition in two branches of one query (its $eq spelling must select the same jobs)
+    *[{"jobs": _J, "filter": f, "rewrites": [[4, k], [4, k + 1], [4, k + 2]], "slices": [], "groupings": []}
+      for f in ({"$or": [{"b": 2.5, "a": {"$lt": 2}}, {"b": 2.5, "a": {"$gt": 2}}]},
+                {"$or": [{"doc.s": "ab", "a": {"$gt": 3}}, {"doc.s": "ab", "a": {"$lt": 1}}]},
+                {"$not": {"$or": [{"b": 2.5, "doc.a": -1}, {"$not": {"b": 2.5, "a": 3}}]}}) for k in range(2)],
     {"jobs": _J, "filter": {"n": {"x": {"$lt": 2}}, "b": {"$in": [1, 2]}},
      "rewrites": [[1, 1], [3, 0], [2, 0], [5, 0]], "slices": [[1, None, None], [None, None, -1], [-3, 4, 2]], "groupings": _G[:4]},
     {"jobs": _J, "filter": {"$not": {"doc.d.y": "abc"}, "a": {"$gte": 1}},
